@@ -47,6 +47,8 @@ enum Kind {
     Scope,
     JoinMacro,
     Cqueue,
+    /// a scoped child opens a scope of its own; the grandchildren borrow from the outermost frame
+    Nested,
 }
 
 fn the_scope(kind: Kind, alive: &Arc<AtomicBool>, children: usize, yields: usize, fault: Fault) -> u32 {
@@ -95,6 +97,30 @@ fn the_scope(kind: Kind, alive: &Arc<AtomicBool>, children: usize, yields: usize
             if fault == Fault::OwnerPanics {
                 std::panic::panic_any(31u32);
             }
+            0
+        }
+        Kind::Nested => {
+            coroutine::scope(|s| {
+                for _ in 0..children {
+                    unsafe {
+                        s.spawn(move || {
+                            coroutine::scope(|s2| {
+                                unsafe {
+                                    s2.spawn(move || child(a, yields));
+                                }
+                                // the inner owner is busy itself before it reaches the end of its scope
+                                coroutine::yield_now();
+                            });
+                            if !a.load(Ordering::SeqCst) {
+                                BAD.fetch_add(1, Ordering::SeqCst);
+                            }
+                        });
+                    }
+                }
+                if fault == Fault::OwnerPanics {
+                    std::panic::panic_any(31u32);
+                }
+            });
             0
         }
         Kind::Cqueue => {
@@ -230,6 +256,10 @@ pub fn build(quick: bool) -> Vec<Scenario> {
             (true, Kind::Scope, 1, 3, Fault::OwnerCancelled),
             (true, Kind::JoinMacro, 1, 3, Fault::OwnerCancelled),
             (true, Kind::Cqueue, 1, 3, Fault::OwnerCancelled),
+            (true, Kind::Nested, 1, 2, Fault::Nothing),
+            (true, Kind::Nested, 2, 2, Fault::OwnerCancelled),
+            (true, Kind::Nested, 1, 2, Fault::OwnerPanics),
+            (false, Kind::Nested, 1, 2, Fault::OwnerPanics),
         ] {
             if quick && w == 1 && !owner_co {
                 continue;
